@@ -35,6 +35,20 @@ type execTuple struct {
 	Txns    []string `json:"txns"` // status|output hash|output
 	Events  string   `json:"events"`
 	Err     string   `json:"err"`
+	evList  []string
+	fns     []string
+}
+
+func eventStrings(evs []event.Event) []string {
+	var out []string
+	for _, e := range evs {
+		d, err := json.Marshal(e.Data)
+		if err != nil {
+			d = []byte(fmt.Sprintf("%v", e.Data))
+		}
+		out = append(out, fmt.Sprintf("tag=%d type=%d index=%s txn=%s data=%s", e.Tag, e.Type, e.Index, e.TxHash, d))
+	}
+	return out
 }
 
 func canonEvents(evs []event.Event) string {
@@ -76,31 +90,60 @@ func execBlock(w *world.World, orig *block.Block, txns []*transaction.Transactio
 	t.Root = hex.EncodeToString(b.ClientStateHash)
 	t.Changes = int(b.StateChangesCount)
 	t.Events = canonEvents(evs)
+	t.evList = eventStrings(evs)
 	return t
 }
 
-func diffTuple(a, b execTuple) string {
-	switch {
-	case a.Root != b.Root:
-		return "state-root"
-	case a.Changes != b.Changes:
-		return "change-count"
-	case a.Events != b.Events:
-		return "event-list"
+// diffTuple names the first difference: class, the function of the txn concerned, and a short description.
+func diffTuple(a, b execTuple) (class, where, what string) {
+	fn := func(i int) string {
+		if i < len(a.fns) {
+			return a.fns[i]
+		}
+		return "?"
 	}
 	if len(a.Txns) != len(b.Txns) {
-		return "txn-count"
+		return "txn-count", "", fmt.Sprintf("%d vs %d txns", len(a.Txns), len(b.Txns))
 	}
 	for i := range a.Txns {
 		if a.Txns[i] != b.Txns[i] {
 			sa, sb := strings.SplitN(a.Txns[i], "|", 2)[0], strings.SplitN(b.Txns[i], "|", 2)[0]
 			if sa != sb {
-				return "txn-status"
+				return "txn-status", fn(i), fmt.Sprintf("%s vs %s", trunc(a.Txns[i], 200), trunc(b.Txns[i], 200))
 			}
-			return "txn-output"
+			return "txn-output", fn(i), fmt.Sprintf("%s vs %s", trunc(a.Txns[i], 260), trunc(b.Txns[i], 260))
 		}
 	}
-	return ""
+	switch {
+	case a.Root != b.Root:
+		return "state-root", "", a.Root + " vs " + b.Root
+	case a.Changes != b.Changes:
+		return "change-count", "", fmt.Sprintf("%d vs %d", a.Changes, b.Changes)
+	}
+	if a.Events != b.Events {
+		for i := range a.evList {
+			if i >= len(b.evList) || a.evList[i] != b.evList[i] {
+				tag := strings.SplitN(a.evList[i], " ", 2)[0]
+				other := "<missing>"
+				if i < len(b.evList) {
+					other = b.evList[i]
+				}
+				// show the neighbourhood of the first differing byte
+				x, y := a.evList[i], other
+				k := 0
+				for k < len(x) && k < len(y) && x[k] == y[k] {
+					k++
+				}
+				lo := k - 160
+				if lo < 0 {
+					lo = 0
+				}
+				return "event-list", tag, fmt.Sprintf("event %d differs at byte %d: …%s  VS  …%s", i, k, trunc(x[lo:], 420), trunc(y[lo:], 420))
+			}
+		}
+		return "event-list", "extra-events", fmt.Sprintf("%d vs %d events", len(a.evList), len(b.evList))
+	}
+	return "", "", ""
 }
 
 // DetermMain is the entry point of the determ engine.
@@ -226,24 +269,29 @@ func determChild(prop, tier string, idx, nh, nl int) int {
 		setupHistory(h, nil)
 		h.EndBlock()
 		blockNo := 0
-		judge := func() {
-			b := h.Head
-			if len(b.Txns) == 0 || h.Vars["judged"] == b.Hash {
+		h.BlockEv = map[string][]event.Event{}
+		h.BlockNames = map[string][]string{}
+		lastJudged := h.Head.Round
+		judgeBlock := func(b *block.Block) {
+			if len(b.Txns) == 0 {
 				return
 			}
-			h.Vars["judged"] = b.Hash
 			blockNo++
-			names, _ := h.Vars["blockNames"].([]string)
+			names := h.BlockNames[b.Hash]
 			first := execTuple{Root: hex.EncodeToString(b.ClientStateHash), Changes: int(b.StateChangesCount)}
-			// the first execution's per-txn results
-			var evs []event.Event
-			if e, ok := h.Vars["blockEvents"].([]event.Event); ok {
-				evs = e
-			}
+			evs := h.BlockEv[b.Hash]
 			for _, t := range b.Txns {
 				first.Txns = append(first.Txns, fmt.Sprintf("%d|%s|%s", t.Status, t.ComputeOutputHash(), t.TransactionOutput))
 			}
 			first.Events = canonEvents(evs)
+			first.evList = eventStrings(evs)
+			for _, t := range b.Txns {
+				f := "send/data"
+				if t.SmartContractData != nil && t.FunctionName != "" {
+					f = h.name(t.ToClientID) + "." + t.FunctionName
+				}
+				first.fns = append(first.fns, f)
+			}
 			txns := append([]*transaction.Transaction{}, b.Txns...)
 			conds := []struct {
 				name  string
@@ -255,13 +303,12 @@ func determChild(prop, tier string, idx, nh, nl int) int {
 				if c.cold {
 					w.Chain.SetupStateCache()
 				}
-				// only txns that were accepted are in b.Txns; rejected ones never enter a block
 				got := execBlock(w, b, txns)
 				run.Eval(1)
 				run.Count("reexecutions", 1)
 				run.Count("reexec_"+c.name, 1)
-				if d := diffTuple(first, got); d != "" {
-					run.Violate("reexecution-differs:"+d+":"+strings.Join(uniq(names), ","), fmt.Sprintf("block %s (round %d, ops %v) re-executed under %s differs in %s: first %v, then %v", b.Hash[:8], b.Round, names, c.name, d, brief(first), brief(got)), map[string]interface{}{"history": h.ID, "ops": names, "condition": c.name})
+				if cls, where, what := diffTuple(first, got); cls != "" {
+					run.Violate("reexecution-differs:"+cls+":"+where, fmt.Sprintf("block %s (round %d, ops %v) re-executed under %s differs in %s at %s: %s", b.Hash[:8], b.Round, names, c.name, cls, where, what), map[string]interface{}{"history": h.ID, "ops": names, "condition": c.name})
 				}
 			}
 			runtime.GOMAXPROCS(16)
@@ -272,8 +319,23 @@ func determChild(prop, tier string, idx, nh, nl int) int {
 			if blockNo == 1 && j == 0 && idx == 0 {
 				run.Sample(map[string]interface{}{"history": h.ID, "block_ops": names, "root": first.Root, "events": first.Events})
 			}
+			delete(h.BlockEv, b.Hash)
+			delete(h.BlockNames, b.Hash)
 		}
-		h.Vars["blockEvents"] = []event.Event{}
+		// judge every sealed block above the last judged one, oldest first
+		judge := func() {
+			if h.BC != nil {
+				return
+			}
+			var pend []*block.Block
+			for b := h.Head; b != nil && b.Round > lastJudged; b = b.PrevBlock {
+				pend = append([]*block.Block{b}, pend...)
+			}
+			for _, b := range pend {
+				judgeBlock(b)
+				lastJudged = b.Round
+			}
+		}
 		for k := 0; k < nl; k++ {
 			op := ops[r.Pick(wts)]
 			c := op.Build(h, r)
@@ -283,9 +345,6 @@ func determChild(prop, tier string, idx, nh, nl int) int {
 			mutateNonce(h, r, c, 0.02)
 			ob := h.Submit(c, nil)
 			if ob.Outcome != "rejected" {
-				h.Vars["blockEvents"] = append(h.Vars["blockEvents"].([]event.Event), ob.Events...)
-				bn, _ := h.Vars["blockNames"].([]string)
-				h.Vars["blockNames"] = append(bn, c.Name+"/"+ob.Outcome)
 				h.S.Accepted = append(h.S.Accepted, ob.Txn)
 				if len(h.S.Accepted) > 64 {
 					h.S.Accepted = h.S.Accepted[1:]
@@ -294,8 +353,6 @@ func determChild(prop, tier string, idx, nh, nl int) int {
 			if h.TxInBlk >= 1+r.Intn(6) {
 				h.EndBlock()
 				judge()
-				h.Vars["blockEvents"] = []event.Event{}
-				h.Vars["blockNames"] = []string{}
 				h.advanceTime(r)
 			}
 		}
